@@ -377,27 +377,8 @@ def run(ctx):
     if ap:
         from .shared import single_batch
         single_batch(ctx, R4, ap)
-        fl = vf.get_flow(ap)
-        hc = [x for x in cfg.comparisons(ap) if x.op in ("Lt", "Ge", "Gt", "Le") and vf.has_call(vf.producers(ap, x.l) | vf.producers(ap, x.r), c.WB + "last_confirmed_height")]
-        held = len(hc) == 1
-        if held:
-            x = hc[0]
-            op = x.normalized(lambda o: any(a[0] == "arg" for a in o) and not vf.has_call(o, c.WB + "last_confirmed_height"), lambda o: vf.has_call(o, c.WB + "last_confirmed_height"), fl)
-            # both operands are the plain values (no arithmetic on either side)
-            plain = all(not any(y[0] == "binop" for y in vf.producers(ap, side)) for side in (x.l, x.r))
-            if not plain:
-                op = None
-            behind = x.true_edges if op == "Lt" else (x.false_edges if op == "Ge" else None)
-            held = behind is not None
-            if held:
-                starts = [d for (_s, d) in behind]
-                par = cfg.reach(ap, starts=starts)
-                eb = ctx.eff.effect_blocks(ap)
-                bt = {b for b, _t in cfg.find_calls(ap, c.WB + "batch")}
-                held = not any(b in par for b in eb) and not any(b in par for b in bt)
-        run.instance(R4, {"fn": "apply_api_outputs", "obligation": "height < last_confirmed_height => return without opening a batch"}, held=held)
-        if not held:
-            run.finding(Finding(R4, ap.id, "refresh writes although the node height is below the wallet's confirmed height", site=ap.loc()))
+        from .shared import refresh_not_skipped
+        refresh_not_skipped(ctx, R4)
     R5 = "C04.R5"
     run.rule(R5, "log entries are written with the figures of the outputs they account for (debited = value of the inputs locked, credited = value of the outputs created)", floor=6)
     lk = ctx.fn(SEL + "lock_tx_context")
